@@ -108,6 +108,8 @@ class Runner:
         I = W.I
         io = W.buffer('io', Next * ncols)
         inp = io
+        if inplace:
+            io.in_extent = 8 * N * ncols        # rows N..N_ext-1 of an in/out buffer are output-only
         if not inplace:
             inp = W.buffer('input', N * ncols)
         bptr = NULL
